@@ -54,7 +54,7 @@ func init() {
 		raceChild(os.Args[2], seed)
 		os.Exit(0)
 	}
-	register(&Engine{Name: "race", Gen: genRace, NewExec: func() Exec { return &raceExec{} }})
+	register(&Engine{Name: "race", Gen: genRace, NewExec: func() Exec { x := &raceExec{}; x.build(); return x }})
 }
 
 type raceExec struct {
@@ -178,7 +178,7 @@ func (x *raceExec) Exec(a []string) string {
 	go func() { done <- cmd.Wait() }()
 	select {
 	case <-done:
-	case <-time.After(120 * time.Second):
+	case <-time.After(240 * time.Second): // the scenarios bound themselves at ~30 s; this is slack for a loaded machine
 		cmd.Process.Kill()
 		return "err-childtimeout"
 	}
@@ -404,6 +404,10 @@ func raceChild(scn string, seed int64) {
 			}
 		}()
 	}
+	// every scenario loop also stops at this deadline: under a heavily loaded machine the race-instrumented child is slow,
+	// and a scenario that outlives the op watchdog would look like a HANG of the unchanged code (seen once in a background
+	// sweep with four other checks running)
+	raceDeadline := time.Now().Add(30 * time.Second)
 	switch scn {
 	case "addrs":
 		// address issuance beside fee estimation (which lists the wallet's addresses without WalletManager.mu)
@@ -413,7 +417,7 @@ func raceChild(scn string, seed int64) {
 				defer wg.Done()
 				defer func() { recover() }()
 				amt, _ := massutil.NewAmountFromInt(100)
-				for i := 0; i < 400; i++ {
+				for i := 0; i < 400 && time.Now().Before(raceDeadline); i++ {
 					// frozen period below the minimum: returns right after listing the addresses
 					wm.EstimateStakingTxFee([]*masswallet.StakingTxOut{{Address: stakeAddr, Amount: amt, FrozenPeriod: 1}}, 0, massutil.ZeroAmount(), "", "")
 				}
@@ -427,7 +431,7 @@ func raceChild(scn string, seed int64) {
 			go func() {
 				defer wg.Done()
 				defer func() { recover() }()
-				for i := 0; i < 300; i++ {
+				for i := 0; i < 300 && time.Now().Before(raceDeadline); i++ {
 					wm.IsAddressInCurrent(a1)
 					if i%8 == 0 {
 						wm.GetTxHistory(1, a1)
